@@ -8,6 +8,7 @@ scenario is verified 8 times (fresh maps).  Violation = Ok with dissent present.
 import copy
 
 import common
+import crowd
 import pipeline
 import scen
 
@@ -237,6 +238,8 @@ def main(ctx):
         m = res.extras.get("distinct_iteration_orders_seen_max", 0)
         res.merge(p)
         res.extras["distinct_iteration_orders_seen_max"] = max(m, p.extras.get("distinct_iteration_orders_seen_max", 0))
+    for p in common.pmap(crowd.functionaries, [(ctx.bin, ctx.seed, PROP, s, 7 if not ctx.thorough else 42, "dissent") for s in range(4 if not ctx.thorough else common.NPROC)]):
+        res.merge(p)
     for p in common.pmap(delegated, [(ctx.bin, ctx.seed, s, 12 if not ctx.thorough else 200) for s in range(4)]):
         res.merge(p)
     return common.finish(
@@ -246,7 +249,7 @@ def main(ctx):
              "or only in byproducts/command (positive control) or not at all; the dissenter has the smallest / middle / "
              "largest key id; 8 verifications per scenario; every scenario non-trivial; distinct by (layout, directory)",
         assumptions=["validity of all links by construction"],
-        required=["positive_control_accepted", "dissent:path", "dissent:digest", "dissent:alg", "dissent:extra",
+        required=["crowd:dissent:none", "crowd:accepted", "crowd:rejected", "positive_control_accepted", "dissent:path", "dissent:digest", "dissent:alg", "dissent:extra",
                   "dissent:missing", "where:materials", "where:products", "rank:smallest", "rank:largest", "rank:middle",
                   "surplus_links", "threshold:2", "threshold:3", "threshold:4", "dissent:byproducts_only", "dissent:digest_truncated", "dissent:path_respelled",
                   "dissent:delegated:none", "dissent:delegated:digest", "dissent:inner_step_of_surplus_sublayout:digest", "dissent:inner_step_of_surplus_sublayout:none", "dissent:delegated:extra", "dissent:extra_without_digests", "dissent:digests_emptied", "dissenter_cosigned_another_link:dissent", "dissenter_cosigned_another_link:no_artifact_dissent"],
